@@ -64,6 +64,13 @@ class ImmutableMixin:
     _instance = None
 
     def _get_defensive_copy_if_needed(self, value):
+        if (
+                isinstance(value, ImmutableMixin)
+                and self._is_immutable()
+                and not value._is_immutable()
+        ):
+            # a wrapper nested in this collection does not know its owner is immutable
+            return deepcopy(value)
         return (
             deepcopy(value)
             if (
